@@ -424,6 +424,52 @@ func locallySized(fn *ssa.Function, base ssa.Value, at ssa.Instruction) bool {
 			}
 		})
 		if !found {
+			// sized by a reading helper new since the anchor snapshot, called (on the same
+			// object) before `at`: the helper sizes the field on every path to a success return
+			for _, ci := range CallsIn(fn) {
+				call, isCall := ci.(*ssa.Call)
+				h := CalleeFunc(ci.Common())
+				if !isCall || h == nil || h.Blocks == nil || !IsRepoFunc(h) || !IsNewFunc(h) || len(h.Params) == 0 || len(call.Call.Args) == 0 || !shareOrigin(call.Call.Args[0], b) {
+					continue
+				}
+				before := call.Block() != at.Block() && call.Block().Dominates(at.Block())
+				if call.Block() == at.Block() {
+					for _, x := range call.Block().Instrs {
+						if x == ssa.Instruction(call) {
+							before = true
+							break
+						}
+						if x == at {
+							break
+						}
+					}
+				}
+				if !before {
+					continue
+				}
+				Instrs(h, func(in ssa.Instruction) {
+					st, ok := in.(*ssa.Store)
+					if !ok {
+						return
+					}
+					fa, ok := st.Addr.(*ssa.FieldAddr)
+					if !ok || FieldOf(fa) != f || !originatesFromParam(fa.X, h.Params[0]) || !freshOrigin(st.Val) {
+						return
+					}
+					all := true
+					rets := SuccessReturns(h)
+					for _, ret := range rets {
+						if st.Block() != ret.Block() && !st.Block().Dominates(ret.Block()) {
+							all = false
+						}
+					}
+					if all && len(rets) > 0 {
+						found = true
+					}
+				})
+			}
+		}
+		if !found {
 			return false
 		}
 	}
